@@ -173,7 +173,7 @@ def add_corpora(cases, rng):
             rng.choice(words)[1].append(n + 1)
         g['corpora'] = []
         for _ in range(2):
-            toks = [rng.choice([w[0] for w in words] + ['unknown', 'w1'])
+            toks = [rng.choice([w[0] for w in words] + ['unknown', 'w1', ''])
                     for _ in range(rng.randint(0, 5))]
             g['corpora'].append({'tokens': toks, 'distribute': rng.random() < 0.5,
                                  'smoothing': rng.choice([[0, 1], [1, 2], [1, 1], [1, 1]])})
